@@ -152,6 +152,7 @@ type previewer struct {
 	bar        []bool
 	xw         [2]int
 	pending    bool
+	frame      int
 }
 
 type previewed struct {
@@ -695,6 +696,7 @@ type previewResult struct {
 	lines   []string
 	offset  int
 	spinner string
+	frame   int
 }
 
 func toActions(types ...actionType) []*action {
@@ -992,7 +994,7 @@ func NewTerminal(opts *Options, eventBox *util.EventBox, executor *util.Executor
 		initialPreviewOpts: opts.Preview,
 		previewOpts:        opts.Preview,
 		activePreviewOpts:  &opts.Preview,
-		previewer:          previewer{0, []string{}, 0, false, true, disabledState, "", []bool{}, [2]int{0, 0}, false},
+		previewer:          previewer{0, []string{}, 0, false, true, disabledState, "", []bool{}, [2]int{0, 0}, false, 0},
 		previewed:          previewed{0, 0, 0, false, false, false, false},
 		previewBox:         previewBox,
 		eventBox:           eventBox,
@@ -4586,6 +4588,7 @@ func (t *Terminal) Loop() error {
 						rendered := util.NewAtomicBool(false)
 						go func(version int64) {
 							lines := []string{}
+							frame := 0 // Number of clear codes seen
 							spinner := makeSpinner(t.unicode)
 							spinnerIndex := -1 // Delay initial rendering by an extra tick
 							ticker := time.NewTicker(previewChunkDelay)
@@ -4597,7 +4600,7 @@ func (t *Terminal) Loop() error {
 									if len(lines) > 0 && len(lines) >= initialOffset {
 										if spinnerIndex >= 0 {
 											spin := spinner[spinnerIndex%len(spinner)]
-											t.reqBox.Set(reqPreviewDisplay, previewResult{version, lines, offset, spin})
+											t.reqBox.Set(reqPreviewDisplay, previewResult{version, lines, offset, spin, frame})
 											rendered.Set(true)
 											offset = -1
 										}
@@ -4609,15 +4612,17 @@ func (t *Terminal) Loop() error {
 									if len(line) > 0 {
 										clearIndex := strings.Index(line, clearCode)
 										if clearIndex >= 0 {
+											// What follows replaces what has been shown so far: whatever the
+											// window holds must be redrawn, however similar in shape
 											lines = []string{}
 											line = line[clearIndex+len(clearCode):]
-											version--
+											frame++
 											offset = 0
 										}
 										lines = append(lines, line)
 									}
 									if err != nil {
-										t.reqBox.Set(reqPreviewDisplay, previewResult{version, lines, offset, ""})
+										t.reqBox.Set(reqPreviewDisplay, previewResult{version, lines, offset, "", frame})
 										rendered.Set(true)
 										break Loop
 									}
@@ -4683,10 +4688,10 @@ func (t *Terminal) Loop() error {
 					} else {
 						// Failed to start the command. Report the error immediately.
 						removeFiles(tempFiles)
-						t.reqBox.Set(reqPreviewDisplay, previewResult{version, []string{err.Error()}, 0, ""})
+						t.reqBox.Set(reqPreviewDisplay, previewResult{version, []string{err.Error()}, 0, "", 0})
 					}
 				} else {
-					t.reqBox.Set(reqPreviewDisplay, previewResult{version, nil, 0, ""})
+					t.reqBox.Set(reqPreviewDisplay, previewResult{version, nil, 0, "", 0})
 				}
 			}
 		}()
@@ -4841,6 +4846,11 @@ func (t *Terminal) Loop() error {
 						}
 						t.previewer.lines = result.lines
 						t.previewer.spinner = result.spinner
+						if t.previewer.frame != result.frame {
+							// A clear code has been seen since the last rendering
+							t.previewer.frame = result.frame
+							t.previewed.version = noPreviewedVersion
+						}
 						if t.previewer.pending {
 							// The lines of the previous command may have been redrawn under this version
 							// while the "Loading .." message was up
